@@ -766,4 +766,669 @@ theorem oldBound_counterexample :
       isFuel (decodeYAML s 28) = false := by decide +kernel
   exact ⟨(isFuel_iff _).mp h.1, fun he => by rw [(isFuel_iff _).mpr he] at h; exact absurd h.2 (by decide)⟩
 
+/-! ## Part 4: the merge walk computes the specified content
+
+  ### 4a. `fresh`: the pairs a source contributes to a mapping that already has the keys `U` -/
+
+abbrev keysOf (l : List (String × Nat)) : List String := l.map (·.1)
+
+/-- The pairs of `l` whose key is neither in `U` nor occurred earlier in `l`, in order. -/
+def fresh (U : List String) : List (String × Nat) → List (String × Nat)
+  | [] => []
+  | (k, v) :: r => if U.contains k then fresh U r else (k, v) :: fresh (k :: U) r
+
+theorem mergeInto_eq (U : List String) (out l : List (String × Nat)) :
+    mergeInto U out l = ((keysOf (fresh U l)).reverse ++ U, out ++ fresh U l) := by
+  induction l generalizing U out with
+  | nil => simp [mergeInto, fresh]
+  | cons a r ih =>
+    obtain ⟨k, v⟩ := a
+    simp only [mergeInto, fresh]
+    split
+    · exact ih U out
+    · rw [ih]; simp
+
+theorem fresh_congr {U U' : List String} (h : ∀ k, k ∈ U ↔ k ∈ U') (l : List (String × Nat)) :
+    fresh U l = fresh U' l := by
+  induction l generalizing U U' with
+  | nil => rfl
+  | cons a r ih =>
+    obtain ⟨k, v⟩ := a
+    simp only [fresh, List.contains_eq_mem, decide_eq_true_eq]
+    by_cases hk : k ∈ U
+    · rw [if_pos hk, if_pos ((h k).mp hk)]; exact ih h
+    · rw [if_neg hk, if_neg (fun h' => hk ((h k).mpr h'))]
+      congr 1
+      apply ih
+      intro x
+      simp only [List.mem_cons]
+      rw [h x]
+
+theorem fresh_append (U : List String) (a b : List (String × Nat)) :
+    fresh U (a ++ b) = fresh U a ++ fresh ((keysOf (fresh U a)).reverse ++ U) b := by
+  induction a generalizing U with
+  | nil => simp [fresh]
+  | cons p r ih =>
+    obtain ⟨k, v⟩ := p
+    simp only [List.cons_append, fresh]
+    split
+    · exact ih U
+    · rw [ih]; simp
+
+theorem mem_keys_fresh {U : List String} {l : List (String × Nat)} {k : String} :
+    k ∈ keysOf (fresh U l) ↔ k ∈ keysOf l ∧ k ∉ U := by
+  induction l generalizing U with
+  | nil => simp [fresh]
+  | cons p r ih =>
+    obtain ⟨k', v⟩ := p
+    simp only [fresh, List.contains_eq_mem, decide_eq_true_eq]
+    by_cases hk : k' ∈ U
+    · rw [if_pos hk]
+      simp only [ih, List.map_cons, List.mem_cons]
+      constructor
+      · rintro ⟨h1, h2⟩; exact ⟨.inr h1, h2⟩
+      · rintro ⟨h1 | h1, h2⟩
+        · subst h1; exact absurd hk h2
+        · exact ⟨h1, h2⟩
+    · rw [if_neg hk]
+      simp only [List.map_cons, List.mem_cons, ih]
+      constructor
+      · rintro (h1 | ⟨h1, h2⟩)
+        · subst h1; exact ⟨.inl rfl, hk⟩
+        · exact ⟨.inr h1, fun h => h2 (.inr h)⟩
+      · rintro ⟨h1 | h1, h2⟩
+        · exact .inl h1
+        · by_cases hkk : k = k'
+          · exact .inl hkk
+          · exact .inr ⟨h1, fun h => h.elim hkk h2⟩
+
+theorem fresh_eq_nil {U : List String} {l : List (String × Nat)} (h : ∀ k ∈ keysOf l, k ∈ U) :
+    fresh U l = [] := by
+  induction l with
+  | nil => rfl
+  | cons p r ih =>
+    obtain ⟨k, v⟩ := p
+    simp only [fresh, List.contains_eq_mem, decide_eq_true_eq]
+    rw [if_pos (h k (by simp))]
+    exact ih fun x hx => h x (by simp only [List.map_cons, List.mem_cons]; exact .inr hx)
+
+theorem fresh_fresh (A B : List String) (l : List (String × Nat)) :
+    fresh B (fresh A l) = fresh (A ++ B) l := by
+  induction l generalizing A B with
+  | nil => rfl
+  | cons p r ih =>
+    obtain ⟨k, v⟩ := p
+    simp only [fresh, List.contains_eq_mem, decide_eq_true_eq, List.mem_append]
+    by_cases hA : k ∈ A
+    · rw [if_pos hA, if_pos (.inl hA)]; exact ih A B
+    · rw [if_neg hA]
+      simp only [fresh, List.contains_eq_mem, decide_eq_true_eq]
+      by_cases hB : k ∈ B
+      · rw [if_pos hB, if_pos (.inr hB), ih]
+        apply fresh_congr
+        intro x
+        simp only [List.cons_append, List.mem_cons, List.mem_append]
+        constructor
+        · rintro (h | h | h)
+          · subst h; exact .inr hB
+          · exact .inl h
+          · exact .inr h
+        · rintro (h | h)
+          · exact .inr (.inl h)
+          · exact .inr (.inr h)
+      · rw [if_neg hB, if_neg (fun h => h.elim hA hB), ih]
+        congr 1
+        apply fresh_congr
+        intro x
+        simp only [List.cons_append, List.mem_cons, List.mem_append]
+        constructor
+        · rintro (h | h | h | h)
+          · exact .inl h
+          · exact .inr (.inl h)
+          · exact .inl h
+          · exact .inr (.inr h)
+        · rintro (h | h | h)
+          · exact .inl h
+          · exact .inr (.inl h)
+          · exact .inr (.inr (.inr h))
+
+/-! ### 4b. Callback chains up to what can be observed: the unions of their suffixes -/
+
+/-- `lv'` arises from `lv` by adding the keys `K` to every suffix union (and nothing else). -/
+def SU (lv lv' : List (List String)) (K : List String) : Prop :=
+  lv'.length = lv.length ∧
+  ∀ i, i < lv.length → ∀ k, k ∈ (lv'.drop i).flatten ↔ (k ∈ (lv.drop i).flatten ∨ k ∈ K)
+
+theorem SU.refl (lv : List (List String)) : SU lv lv [] := ⟨rfl, fun _ _ _ => by simp⟩
+
+theorem SU.trans {a b c : List (List String)} {K1 K2 : List String} (h1 : SU a b K1) (h2 : SU b c K2) :
+    SU a c (K1 ++ K2) := by
+  refine ⟨h2.1.trans h1.1, fun i hi k => ?_⟩
+  rw [h2.2 i (h1.1 ▸ hi) k, h1.2 i hi k, List.mem_append, or_assoc]
+
+theorem SU.congr {a b : List (List String)} {K K' : List String} (h : SU a b K) (hk : ∀ k, k ∈ K ↔ k ∈ K') :
+    SU a b K' := ⟨h.1, fun i hi k => by rw [h.2 i hi k, hk k]⟩
+
+theorem SU.flatten {a b : List (List String)} {K : List String} (h : SU a b K) (hne : a ≠ []) (k : String) :
+    k ∈ b.flatten ↔ (k ∈ a.flatten ∨ k ∈ K) := by
+  have := h.2 0 (List.length_pos_iff.mpr hne) k
+  simpa using this
+
+theorem SU.tail {c c' : List String} {o o' : List (List String)} {K : List String}
+    (h : SU (c :: o) (c' :: o') K) : SU o o' K := by
+  refine ⟨by simpa using h.1, fun i hi k => ?_⟩
+  have := h.2 (i + 1) (by simp only [List.length_cons]; omega) k
+  simpa using this
+
+theorem yieldChain_spec (lv : List (List String)) (k : String) :
+    ((yieldChain lv k).2 = true ↔ k ∉ lv.flatten) ∧
+    SU lv (yieldChain lv k).1 (if (yieldChain lv k).2 then [k] else []) := by
+  induction lv with
+  | nil => simp [yieldChain, SU]
+  | cons ks outer ih =>
+    obtain ⟨ih1, ih2⟩ := ih
+    simp only [yieldChain, List.contains_eq_mem, decide_eq_true_eq]
+    by_cases hk : k ∈ ks
+    · rw [if_pos hk]
+      refine ⟨by simp [hk], ?_⟩
+      simpa using SU.refl (ks :: outer)
+    · rw [if_neg hk]
+      simp only [List.flatten_cons, List.mem_append, hk, false_or]
+      refine ⟨ih1, ?_⟩
+      refine ⟨by simpa using ih2.1, fun i hi x => ?_⟩
+      cases i with
+      | zero =>
+        simp only [List.drop_zero, List.flatten_cons, List.mem_append, List.mem_cons]
+        by_cases hb : (yieldChain outer k).2 = true
+        · rw [if_pos hb] at ih2 ⊢
+          cases outer with
+          | nil => simp [yieldChain]; exact or_comm
+          | cons o1 o2 =>
+            have := ih2.flatten (by simp) x
+            rw [this]; simp only [List.flatten_cons, List.mem_append, List.mem_singleton]; grind
+        · rw [if_neg hb] at ih2 ⊢
+          have hkin : k ∈ outer.flatten := by
+            by_cases h' : k ∈ outer.flatten
+            · exact h'
+            · exact absurd (ih1.mpr h') hb
+          cases outer with
+          | nil => simp at hkin
+          | cons o1 o2 =>
+            have := ih2.flatten (by simp) x
+            rw [this]
+            simp only [List.flatten_cons, List.mem_append, List.not_mem_nil, or_false]
+            constructor
+            · rintro ((h | h) | h)
+              · subst h
+                simp only [List.flatten_cons, List.mem_append] at hkin
+                exact .inr hkin
+              · exact .inl h
+              · exact .inr h
+            · rintro (h | h)
+              · exact .inl (.inr h)
+              · exact .inr h
+      | succ i =>
+        have := ih2.2 i (by simp only [List.length_cons] at hi; omega) x
+        simpa using this
+
+/-! ### 4c. `den`: the content a merge value denotes, with one fuel that drops at every node
+
+  Same rules as `specContent`/`specSources`/`specMergeAll`, arranged like the walk (node by node). -/
+
+abbrev Pairs := List (String × Nat)
+
+def seqD (d : Option Nat → Except Err Pairs) : List Nat → Except Err Pairs
+  | [] => .ok []
+  | e :: r =>
+    match d (some e) with
+    | .error err => .error err
+    | .ok a =>
+      match seqD d r with
+      | .error err => .error err
+      | .ok b => .ok (a ++ b)
+
+/-- The pairs a mapping has *after* the position reached, given the keys `have_` it has or will have. -/
+def pairsD (s : Store) (d : Option Nat → Except Err Pairs) (g : Nat) : List String → List (Nat × Nat) → Except Err Pairs
+  | _, [] => .ok []
+  | have_, (k, v) :: rest =>
+    match s[k]? with
+    | none => .error .other
+    | some kn =>
+      if kn.isMerge then
+        match d (some v) with
+        | .error e => .error e
+        | .ok c =>
+          match pairsD s d g ((keysOf (fresh have_ c)).reverse ++ have_) rest with
+          | .error e => .error e
+          | .ok r => .ok (fresh have_ c ++ r)
+      else
+        match canonicalKey s g k with
+        | .error e => .error e
+        | .ok ck =>
+          match pairsD s d g have_ rest with
+          | .error e => .error e
+          | .ok r => .ok ((ck, v) :: r)
+
+def den (s : Store) : Nat → Option Nat → Except Err Pairs
+  | 0, _ => .error .fuel
+  | _ + 1, none => .ok []
+  | f + 1, some i =>
+    match s[i]? with
+    | none => .error .other
+    | some n =>
+      match n.kind with
+      | .mapping =>
+        match pairsOf n.content with
+        | none => .error .other
+        | some ps =>
+          match explicitKeys s (f + 1) ps with
+          | .error e => .error e
+          | .ok ks => pairsD s (den s f) (f + 1) ks ps
+      | .sequence => seqD (den s f) n.content
+      | .alias => den s f n.aliasTo
+      | _ => .error .other
+
+/-! Fuel monotonicity -/
+
+theorem canonicalKey_mono (s : Store) : ∀ f f' i, canonicalKey s f i ≠ .error .fuel → f ≤ f' →
+    canonicalKey s f' i = canonicalKey s f i := by
+  intro f
+  induction f with
+  | zero => intro f' i h; simp [canonicalKey] at h
+  | succ f ih =>
+    intro f' i h hle
+    obtain ⟨f'', rfl⟩ : ∃ f'', f' = f'' + 1 := ⟨f' - 1, by omega⟩
+    simp only [canonicalKey] at h ⊢
+    cases hs : s[i]? with
+    | none => rfl
+    | some n =>
+      simp only [hs] at h ⊢
+      cases hk : n.kind <;> simp only [hk] at h ⊢
+      cases ha : n.aliasTo with
+      | none => rfl
+      | some t =>
+        simp only [ha] at h ⊢
+        exact ih f'' t h (by omega)
+
+theorem canonicalKey_agree {s : Store} {g F i : Nat} {ck : String} (h : canonicalKey s g i = .ok ck) :
+    canonicalKey s F i = .error .fuel ∨ canonicalKey s F i = .ok ck := by
+  by_cases hF : canonicalKey s F i = .error .fuel
+  · exact .inl hF
+  · right
+    have h1 := canonicalKey_mono s F (max F g) i hF (Nat.le_max_left _ _)
+    have h2 := canonicalKey_mono s g (max F g) i (by rw [h]; simp) (Nat.le_max_right _ _)
+    rw [← h1, h2, h]
+
+theorem canonicalKey_ok_mono {s : Store} {g g' i : Nat} {ck : String} (h : canonicalKey s g i = .ok ck)
+    (hle : g ≤ g') : canonicalKey s g' i = .ok ck := by
+  rw [canonicalKey_mono s g g' i (by rw [h]; simp) hle, h]
+
+theorem map_ne_fuel_inv {α β : Type} {g : α → β} {x : Except Err α} (h : x.map g ≠ .error .fuel) :
+    x ≠ .error .fuel := by
+  intro hx; subst hx; exact h rfl
+
+theorem explicitKeys_mono (s : Store) : ∀ f f' ps, explicitKeys s f ps ≠ .error .fuel → f ≤ f' →
+    explicitKeys s f' ps = explicitKeys s f ps := by
+  intro f
+  induction f with
+  | zero => intro f' ps h; simp [explicitKeys] at h
+  | succ f ih =>
+    intro f' ps h hle
+    obtain ⟨f'', rfl⟩ : ∃ f'', f' = f'' + 1 := ⟨f' - 1, by omega⟩
+    rcases ps with _ | ⟨⟨k, v⟩, rest⟩
+    · simp [explicitKeys]
+    · simp only [explicitKeys] at h ⊢
+      cases hs : s[k]? with
+      | none => rfl
+      | some kn =>
+        simp only [hs] at h ⊢
+        cases hm : kn.isMerge <;> simp only [hm, Bool.false_eq_true, ↓reduceIte] at h ⊢
+        case true => exact ih f'' rest h (by omega)
+        case false =>
+          cases hck : canonicalKey s (f + 1) k with
+          | error e =>
+            simp only [hck] at h
+            have := canonicalKey_mono s (f + 1) (f'' + 1) k (by rw [hck]; intro h'; cases h'; exact h rfl) hle
+            rw [this, hck]
+          | ok ck =>
+            simp only [hck] at h
+            rw [canonicalKey_ok_mono hck hle]
+            simp only []
+            rw [ih f'' rest (map_ne_fuel_inv h) (by omega)]
+
+theorem explicitKeys_agree {s : Store} {g F : Nat} {ps : List (Nat × Nat)} {ks : List String}
+    (h : explicitKeys s g ps = .ok ks) :
+    explicitKeys s F ps = .error .fuel ∨ explicitKeys s F ps = .ok ks := by
+  by_cases hF : explicitKeys s F ps = .error .fuel
+  · exact .inl hF
+  · right
+    have h1 := explicitKeys_mono s F (max F g) ps hF (Nat.le_max_left _ _)
+    have h2 := explicitKeys_mono s g (max F g) ps (by rw [h]; simp) (Nat.le_max_right _ _)
+    rw [← h1, h2, h]
+
+theorem seqD_mono {d d' : Option Nat → Except Err Pairs} (hd : ∀ o c, d o = .ok c → d' o = .ok c) :
+    ∀ l c, seqD d l = .ok c → seqD d' l = .ok c := by
+  intro l
+  induction l with
+  | nil => intro c h; simpa [seqD] using h
+  | cons e r ih =>
+    intro c h
+    simp only [seqD] at h ⊢
+    cases h1 : d (some e) with
+    | error err => simp [h1] at h
+    | ok a =>
+      simp only [h1] at h
+      rw [hd _ _ h1]
+      cases h2 : seqD d r with
+      | error err => simp [h2] at h
+      | ok b =>
+        simp only [h2] at h
+        rw [ih b h2]
+        exact h
+
+theorem pairsD_mono {s : Store} {d d' : Option Nat → Except Err Pairs} {g g' : Nat}
+    (hd : ∀ o c, d o = .ok c → d' o = .ok c) (hg : g ≤ g') :
+    ∀ ps have_ c, pairsD s d g have_ ps = .ok c → pairsD s d' g' have_ ps = .ok c := by
+  intro ps
+  induction ps with
+  | nil => intro have_ c h; simpa [pairsD] using h
+  | cons p rest ih =>
+    obtain ⟨k, v⟩ := p
+    intro have_ c h
+    simp only [pairsD] at h ⊢
+    cases hs : s[k]? with
+    | none => simp [hs] at h
+    | some kn =>
+      simp only [hs] at h ⊢
+      cases hm : kn.isMerge <;> simp only [hm, Bool.false_eq_true, ↓reduceIte] at h ⊢
+      case true =>
+        cases h1 : d (some v) with
+        | error e => simp [h1] at h
+        | ok a =>
+          simp only [h1] at h
+          rw [hd _ _ h1]
+          simp only []
+          cases h2 : pairsD s d g ((keysOf (fresh have_ a)).reverse ++ have_) rest with
+          | error e => simp [h2] at h
+          | ok b =>
+            simp only [h2] at h
+            rw [ih _ _ h2]
+            exact h
+      case false =>
+        cases h1 : canonicalKey s g k with
+        | error e => simp [h1] at h
+        | ok ck =>
+          simp only [h1] at h
+          rw [canonicalKey_ok_mono h1 hg]
+          simp only []
+          cases h2 : pairsD s d g have_ rest with
+          | error e => simp [h2] at h
+          | ok b =>
+            simp only [h2] at h
+            rw [ih _ _ h2]
+            exact h
+
+theorem den_mono (s : Store) : ∀ h h' o c, den s h o = .ok c → h ≤ h' → den s h' o = .ok c := by
+  intro h
+  induction h with
+  | zero => intro h' o c hd; simp [den] at hd
+  | succ h ih =>
+    intro h' o c hd hle
+    obtain ⟨h'', rfl⟩ : ∃ h'', h' = h'' + 1 := ⟨h' - 1, by omega⟩
+    cases o with
+    | none => simpa [den] using hd
+    | some i =>
+      simp only [den] at hd ⊢
+      cases hs : s[i]? with
+      | none => simp [hs] at hd
+      | some n =>
+        simp only [hs] at hd ⊢
+        cases hk : n.kind <;> simp only [hk] at hd ⊢ <;> try (simp at hd; done)
+        · exact seqD_mono (fun o c hc => ih h'' o c hc (by omega)) _ _ hd
+        · cases hp : pairsOf n.content with
+          | none => simp [hp] at hd
+          | some ps =>
+            simp only [hp] at hd ⊢
+            cases he : explicitKeys s (h + 1) ps with
+            | error e => simp [he] at hd
+            | ok ks =>
+              simp only [he] at hd
+              rw [explicitKeys_mono s (h + 1) (h'' + 1) ps (by rw [he]; simp) hle, he]
+              exact pairsD_mono (fun o c hc => ih h'' o c hc (by omega)) hle _ _ _ hd
+        · exact ih h'' _ _ hd (by omega)
+
+theorem den_functional {s : Store} {h1 h2 : Nat} {o : Option Nat} {c1 c2 : Pairs}
+    (a : den s h1 o = .ok c1) (b : den s h2 o = .ok c2) : c1 = c2 := by
+  have a' := den_mono s h1 (max h1 h2) o c1 a (Nat.le_max_left _ _)
+  have b' := den_mono s h2 (max h1 h2) o c2 b (Nat.le_max_right _ _)
+  rw [a'] at b'
+  exact Except.ok.inj b'
+
+theorem den_exists_min {s : Store} {o : Option Nat} : ∀ h c, den s h o = .ok c →
+    ∃ h0, h0 ≤ h ∧ den s h0 o = .ok c ∧ ∀ h', h' < h0 → ∀ c', den s h' o ≠ .ok c' := by
+  intro h
+  induction h using Nat.strongRecOn with
+  | _ h ih =>
+    intro c hd
+    by_cases hex : ∃ h', h' < h ∧ ∃ c', den s h' o = .ok c'
+    · obtain ⟨h', hlt, c', hd'⟩ := hex
+      have := den_functional hd' hd
+      subst this
+      obtain ⟨h0, h0le, h0d, h0min⟩ := ih h' hlt _ hd'
+      exact ⟨h0, by omega, h0d, h0min⟩
+    · exact ⟨h, Nat.le_refl _, hd, fun h' hlt c' hc => hex ⟨h', hlt, c', hc⟩⟩
+
+/-! ### 4d. The specification is `den` -/
+
+theorem mergeInto_append (U : List String) (out a b : Pairs) :
+    mergeInto U out (a ++ b) = mergeInto (mergeInto U out a).1 (mergeInto U out a).2 b := by
+  induction a generalizing U out with
+  | nil => rfl
+  | cons p r ih =>
+    obtain ⟨k, v⟩ := p
+    simp only [List.cons_append, mergeInto]
+    split
+    · exact ih U out
+    · exact ih _ _
+
+theorem specMergeAll_append (s : Store) : ∀ (a : List Nat) g have_ out b r,
+    specMergeAll s g have_ out (a ++ b) = .ok r →
+    ∃ mid g2, g2 ≤ g ∧ specMergeAll s g have_ out a = .ok mid ∧ specMergeAll s g2 mid.1 mid.2 b = .ok r := by
+  intro a
+  induction a with
+  | nil =>
+    intro g have_ out b r h
+    cases g with
+    | zero => simp [specMergeAll] at h
+    | succ g => exact ⟨(have_, out), g + 1, Nat.le_refl _, by simp [specMergeAll], h⟩
+  | cons src a' ih =>
+    intro g have_ out b r h
+    cases g with
+    | zero => simp [specMergeAll] at h
+    | succ g =>
+      simp only [List.cons_append, specMergeAll] at h ⊢
+      cases hc : specContent s g src with
+      | error e => simp [hc] at h
+      | ok ps =>
+        simp only [hc] at h ⊢
+        obtain ⟨mid, g2, hle, h1, h2⟩ := ih g _ _ b r h
+        exact ⟨mid, g2, by omega, h1, h2⟩
+
+/-- Sources and their contents, given `den` for the contents of mappings with less fuel. -/
+theorem specSources_den (s : Store) (G : Nat)
+    (HA : ∀ g, g < G → ∀ i ps, specContent s g i = .ok ps → ∃ h, den s h (some i) = .ok ps) : ∀ g1,
+    (∀ v srcs, specSources s g1 v = .ok srcs → ∀ g', g' ≤ G → ∀ have_ out r,
+      specMergeAll s g' have_ out srcs = .ok r → ∃ h c, den s h v = .ok c ∧ mergeInto have_ out c = r) ∧
+    (∀ l srcs, specSourcesList s g1 l = .ok srcs → ∀ g', g' ≤ G → ∀ have_ out r,
+      specMergeAll s g' have_ out srcs = .ok r →
+      ∃ h c, seqD (den s h) l = .ok c ∧ mergeInto have_ out c = r) := by
+  intro g1
+  induction g1 with
+  | zero => simp [specSources, specSourcesList]
+  | succ g1 ih =>
+    obtain ⟨ih1, ih2⟩ := ih
+    have hnil : ∀ g' have_ out r, specMergeAll s g' have_ out [] = .ok r → r = (have_, out) := by
+      intro g' have_ out r h
+      cases g' with
+      | zero => simp [specMergeAll] at h
+      | succ g' => simpa [specMergeAll] using h.symm
+    refine ⟨?_, ?_⟩
+    · intro v srcs hsrc g' hg' have_ out r hm
+      cases v with
+      | none =>
+        simp only [specSources, Except.ok.injEq] at hsrc
+        subst hsrc
+        exact ⟨1, [], by simp [den], by rw [hnil _ _ _ _ hm]; rfl⟩
+      | some i =>
+        simp only [specSources] at hsrc
+        cases hs : s[i]? with
+        | none => simp [hs] at hsrc
+        | some n =>
+          simp only [hs] at hsrc
+          cases hk : n.kind <;> simp only [hk] at hsrc <;> try (simp at hsrc; done)
+          · -- sequence
+            obtain ⟨h, c, hd, hmi⟩ := ih2 _ _ hsrc g' hg' have_ out r hm
+            exact ⟨h + 1, c, by simp only [den, hs, hk]; exact hd, hmi⟩
+          · -- mapping
+            simp only [Except.ok.injEq] at hsrc
+            subst hsrc
+            cases g' with
+            | zero => simp [specMergeAll] at hm
+            | succ g' =>
+              simp only [specMergeAll] at hm
+              cases hc : specContent s g' i with
+              | error e => simp [hc] at hm
+              | ok ps =>
+                simp only [hc] at hm
+                obtain ⟨h, hd⟩ := HA g' (by omega) i ps hc
+                exact ⟨h, ps, hd, (hnil _ _ _ _ hm).symm⟩
+          · -- alias
+            obtain ⟨h, c, hd, hmi⟩ := ih1 _ _ hsrc g' hg' have_ out r hm
+            exact ⟨h + 1, c, by simp only [den, hs, hk]; exact hd, hmi⟩
+    · intro l srcs hsrc g' hg' have_ out r hm
+      cases l with
+      | nil =>
+        simp only [specSourcesList, Except.ok.injEq] at hsrc
+        subst hsrc
+        exact ⟨0, [], by simp [seqD], by rw [hnil _ _ _ _ hm]; rfl⟩
+      | cons e rest =>
+        simp only [specSourcesList] at hsrc
+        cases he : specSources s g1 (some e) with
+        | error err => simp [he] at hsrc
+        | ok a =>
+          simp only [he] at hsrc
+          cases hr : specSourcesList s g1 rest with
+          | error err => simp [hr, Except.map] at hsrc
+          | ok b =>
+            simp only [hr, Except.map, Except.ok.injEq] at hsrc
+            subst hsrc
+            obtain ⟨mid, g2, hle, hm1, hm2⟩ := specMergeAll_append s a g' have_ out b r hm
+            obtain ⟨h1, c1, hd1, hmi1⟩ := ih1 _ _ he g' hg' have_ out mid hm1
+            obtain ⟨h2, c2, hd2, hmi2⟩ := ih2 _ _ hr g2 (by omega) mid.1 mid.2 r hm2
+            refine ⟨max h1 h2, c1 ++ c2, ?_, ?_⟩
+            · simp only [seqD]
+              rw [den_mono s h1 _ _ _ hd1 (Nat.le_max_left _ _)]
+              simp only []
+              rw [seqD_mono (fun o c hc => den_mono s h2 (max h1 h2) o c hc (Nat.le_max_right _ _)) _ _ hd2]
+            · rw [mergeInto_append, hmi1, hmi2]
+
+theorem specPairs_den (s : Store) (G : Nat)
+    (HA : ∀ g, g < G → ∀ i ps, specContent s g i = .ok ps → ∃ h, den s h (some i) = .ok ps) :
+    ∀ (ps : List (Nat × Nat)) f, f ≤ G + 1 → ∀ have_ out r, specPairs s f have_ out ps = .ok r →
+      ∃ h Δ, pairsD s (den s h) (h + 1) have_ ps = .ok Δ ∧ r.2 = out ++ Δ := by
+  intro ps
+  induction ps with
+  | nil =>
+    intro f hf have_ out r h
+    cases f with
+    | zero => simp [specPairs] at h
+    | succ f =>
+      simp only [specPairs, Except.ok.injEq] at h
+      subst h
+      exact ⟨0, [], by simp [pairsD], by simp⟩
+  | cons p rest ih =>
+    obtain ⟨k, v⟩ := p
+    intro f hf have_ out r h
+    cases f with
+    | zero => simp [specPairs] at h
+    | succ f =>
+      simp only [specPairs] at h
+      cases hs : s[k]? with
+      | none => simp [hs] at h
+      | some kn =>
+        simp only [hs] at h
+        cases hm : kn.isMerge <;> simp only [hm, Bool.false_eq_true, ↓reduceIte] at h
+        case true =>
+          cases hsrc : specSources s (f + 1) (some v) with
+          | error e => simp [hsrc] at h
+          | ok srcs =>
+            simp only [hsrc] at h
+            cases hma : specMergeAll s f have_ out srcs with
+            | error e => simp [hma] at h
+            | ok mid =>
+              obtain ⟨have', out'⟩ := mid
+              simp only [hma] at h
+              obtain ⟨h1, c, hd, hmi⟩ :=
+                (specSources_den s G HA (f + 1)).1 _ _ hsrc f (by omega) have_ out _ hma
+              rw [mergeInto_eq] at hmi
+              simp only [Prod.mk.injEq] at hmi
+              obtain ⟨hh, ho⟩ := hmi
+              obtain ⟨h2, Δ, hp, hr⟩ := ih f (by omega) _ _ _ h
+              refine ⟨max h1 h2, fresh have_ c ++ Δ, ?_, ?_⟩
+              · simp only [pairsD, hs, hm, ↓reduceIte]
+                rw [den_mono s h1 _ _ _ hd (Nat.le_max_left _ _)]
+                simp only []
+                rw [hh]
+                rw [pairsD_mono (fun o c hc => den_mono s h2 (max h1 h2) o c hc (Nat.le_max_right _ _))
+                  (by omega : h2 + 1 ≤ max h1 h2 + 1) _ _ _ hp]
+              · rw [hr, ← ho, List.append_assoc]
+        case false =>
+          cases hck : canonicalKey s (f + 1) k with
+          | error e => simp [hck] at h
+          | ok ck =>
+            simp only [hck] at h
+            obtain ⟨h2, Δ, hp, hr⟩ := ih f (by omega) _ _ _ h
+            refine ⟨max f h2, (ck, v) :: Δ, ?_, ?_⟩
+            · simp only [pairsD, hs, hm, Bool.false_eq_true, ↓reduceIte]
+              rw [canonicalKey_ok_mono hck (by omega : f + 1 ≤ max f h2 + 1)]
+              simp only []
+              rw [pairsD_mono (fun o c hc => den_mono s h2 (max f h2) o c hc (Nat.le_max_right _ _))
+                (by omega : h2 + 1 ≤ max f h2 + 1) _ _ _ hp]
+            · rw [hr]; simp
+
+theorem specContent_den (s : Store) : ∀ g i ps, specContent s g i = .ok ps → ∃ h, den s h (some i) = .ok ps := by
+  intro g
+  induction g using Nat.strongRecOn with
+  | _ g ih =>
+    intro i ps h
+    cases g with
+    | zero => simp [specContent] at h
+    | succ f =>
+      simp only [specContent] at h
+      cases hs : s[i]? with
+      | none => simp [hs] at h
+      | some n =>
+        simp only [hs] at h
+        cases hk : n.kind <;> simp only [hk] at h <;> try (simp at h; done)
+        cases hp : pairsOf n.content with
+        | none => simp [hp] at h
+        | some pr =>
+          simp only [hp] at h
+          cases he : explicitKeys s (f + 1) pr with
+          | error e => simp [he] at h
+          | ok ks =>
+            simp only [he] at h
+            cases hsp : specPairs s f ks [] pr with
+            | error e => simp [hsp, Except.map] at h
+            | ok r =>
+              simp only [hsp, Except.map, Except.ok.injEq] at h
+              obtain ⟨h2, Δ, hpd, hr⟩ := specPairs_den s f (fun g hg => ih g (by omega)) pr f (by omega) _ _ _ hsp
+              simp only [List.nil_append] at hr
+              refine ⟨max f h2 + 1, ?_⟩
+              simp only [den, hs, hk, hp]
+              rw [explicitKeys_mono s (f + 1) (max f h2 + 1) pr (by rw [he]; simp) (by omega), he]
+              simp only []
+              rw [pairsD_mono (fun o c hc => den_mono s h2 (max f h2) o c hc (Nat.le_max_right _ _))
+                (by omega : h2 + 1 ≤ max f h2 + 1) _ _ _ hpd, ← hr, h]
+
 end GoPipeline.Yaml
